@@ -248,6 +248,12 @@ func runC11_2(c *core.Ctx) {
 				if sel, ok := call.Fun.(*ast.SelectorExpr); ok && sel.Sel.Name == "len" {
 					return true
 				}
+				// the method written out: len(b.buf)
+				if id, ok := call.Fun.(*ast.Ident); ok && id.Name == "len" && len(call.Args) == 1 {
+					if fs, ok := ast.Unparen(call.Args[0]).(*ast.SelectorExpr); ok && fs.Sel.Name == "buf" {
+						return true
+					}
+				}
 				return false
 			}
 			if (op == token.LSS && e.Sense && isLenCall(y)) || (op == token.GEQ && !e.Sense && isLenCall(y)) {
@@ -374,6 +380,11 @@ func runC11_3(c *core.Ctx) {
 						if sel, ok := call.Fun.(*ast.SelectorExpr); ok && sel.Sel.Name == "len" {
 							isLen = true
 						}
+						if id, ok := call.Fun.(*ast.Ident); ok && id.Name == "len" && len(call.Args) == 1 { // the method written out: len(b.buf)
+							if fs, ok := ast.Unparen(call.Args[0]).(*ast.SelectorExpr); ok && fs.Sel.Name == "buf" {
+								isLen = true
+							}
+						}
 					}
 					c.Check((y.Tok == token.ADD_ASSIGN) == wantInc && isLen, f.Name, "bytes adjusted by the node length", y.Pos(), "bytes moves by b.len() with the operation",
 						"bytes is not adjusted by the node's length in the direction of the operation")
@@ -475,7 +486,7 @@ func runC11_5(c *core.Ctx) {
 		}
 	}
 	for _, fn := range s.ModFuncs {
-		if fn.Pkg == nil || fn.Pkg.Pkg.Path() != core.ModPath+"/"+a.pk || fn.Signature.Recv() == nil || !observers[fn.Name()] {
+		if fn.Pkg == nil || fn.Pkg.Pkg.Path() != core.ModPath+"/"+a.pk || fn.Signature.Recv() == nil || !observers[ssaName(fn)] {
 			continue
 		}
 		bad := ""
